@@ -21,6 +21,8 @@ pub enum ReadMode {
     Bytes,
     WriteTo,
     TextUtf8,
+    /// Response::json::<serde_json::Value>() - only chosen when the payload is an (ASCII) JSON document
+    Json,
 }
 
 #[derive(Clone, Debug)]
@@ -113,7 +115,16 @@ pub fn gen_extra_headers(g: &mut G) -> Vec<(String, Vec<u8>)> {
 pub fn gen_plan(g: &mut G, max_payload: usize) -> BodyPlan {
     let framing = *g.pick(&[Framing::Length, Framing::Chunked, Framing::Close]);
     let len = g.size(max_payload);
-    let payload = g.payload(len);
+    let mut payload = g.payload(len);
+    let mut json_payload = false;
+    if g.chance(1, 12) {
+        // an ASCII JSON document of roughly the drawn size, read through the json() helper
+        let items: Vec<String> = (0..(len / 12).max(1)).map(|i| format!("\"k{}\":{}", i, i * 7)).collect();
+        payload = format!("{{{}}}", items.join(",")).into_bytes();
+        json_payload = true;
+        g.probe("json-helper");
+    }
+    let len = payload.len();
     let mut extra = gen_extra_headers(g);
     let mut headers: Vec<(String, Vec<u8>)> = Vec::new();
     let (chunks, styles) = if framing == Framing::Chunked { gen_chunks(g, len) } else { (vec![], vec![]) };
@@ -153,6 +164,7 @@ pub fn gen_plan(g: &mut G, max_payload: usize) -> BodyPlan {
         }
     }
     let read_mode = match g.below(8) {
+        _ if json_payload => ReadMode::Json,
         0 => ReadMode::Bytes,
         1 => ReadMode::WriteTo,
         2 => ReadMode::TextUtf8,
@@ -241,6 +253,7 @@ impl BodyPlan {
             ReadMode::Bytes => "bytes",
             ReadMode::WriteTo => "write_to",
             ReadMode::TextUtf8 => "text_utf8",
+            ReadMode::Json => "json",
         };
         let sz = match self.payload.len() {
             0 => "0",
@@ -456,6 +469,22 @@ pub fn caller_with(plan: &BodyPlan, stop_on_block: bool, tweak: impl FnOnce(atto
                 Err(e) => Err(err_kind(&e)),
             };
             o.calls.push(Call { what: "write_to", size: 0, t_in, t_out, res, handed_before: 0 });
+        }
+        ReadMode::Json => {
+            let t_in = attosim::now_ns();
+            let r = resp.json::<serde_json::Value>();
+            let t_out = attosim::now_ns();
+            let res = match r {
+                Ok(v) => {
+                    // canonical re-serialisation stands in for the decoded value
+                    let s = serde_json::to_string(&v).unwrap_or_default();
+                    let n = s.len();
+                    o.text = Some(s);
+                    Ok(n)
+                }
+                Err(e) => Err(err_kind(&e)),
+            };
+            o.calls.push(Call { what: "json", size: 0, t_in, t_out, res, handed_before: 0 });
         }
         ReadMode::TextUtf8 => {
             let t_in = attosim::now_ns();
